@@ -1,5 +1,6 @@
 (* C07 - Output is a deterministic function of the logical input.  Statements and `exact` only. *)
 From Coq Require Import List String Bool NArith Sorting.Permutation.
+From RC Require Import gen.ConstsC14 model.StrC14 model.FileNameC14 model.PyRequiresC14 model.IndexPageC14 proofs.IndexPageC14P proofs.PageOrderP.
 From RC Require Import lib.Pep440 lib.Name model.Merge model.Graph model.Solver proofs.SolverP proofs.OrderFreeP.
 Import ListNotations.
 
@@ -33,3 +34,27 @@ Theorem C07_sort_is_a_function_of_the_set_partial :
   forall l l', Permutation l l' -> distinct_versions l -> sort_candidates l = sort_candidates l'.
 Proof. exact sort_order_free. Qed.
 Print Assumptions C07_sort_is_a_function_of_the_set_partial.
+
+(* Index pages: on simple pages (every anchor holds one text node, other markup is not a file name)
+   the candidates read from the page are, up to order, the same for every order in which the page
+   lists its entries; [pvf]/[pvr] stand for pkg_resources.parse_version / the requires-python reader. *)
+Theorem C07_index_page_listing_order_free_partial :
+  forall (V : Type) (pvf : string -> option V) (pvr : string -> option version) (sys : interp),
+  pvf missing_version <> None ->
+  forall items items', Forall (item_ok V pvf) items -> Permutation items items' ->
+  Permutation (IndexPageC14.offered V pvf pvr sys (flat_map events_of items))
+              (IndexPageC14.offered V pvf pvr sys (flat_map events_of items')).
+Proof. exact page_order_free. Qed.
+Print Assumptions C07_index_page_listing_order_free_partial.
+
+(* ... because every entry is read on its own: an entry with a link, whose requires-python admits the
+   interpreter and whose text is a distribution file name, is offered whatever else the page lists. *)
+Theorem C07_index_page_entry_independent_partial :
+  forall (V : Type) (pvf : string -> option V) (pvr : string -> option version) (sys : interp),
+  pvf missing_version <> None ->
+  forall items attrs text c l,
+  Forall (item_ok V pvf) items -> In (Anchor attrs text) items ->
+  anchor_ctx pvr sys attrs = (Some l, false) -> file_to_cand V pvf text = FCand c ->
+  In (c, l) (IndexPageC14.offered V pvf pvr sys (flat_map events_of items)).
+Proof. exact page_entry_independent. Qed.
+Print Assumptions C07_index_page_entry_independent_partial.
